@@ -16,6 +16,7 @@ import (
 	"github.com/pokt-network/pocket-core/app"
 	"github.com/pokt-network/pocket-core/codec"
 	pcrypto "github.com/pokt-network/pocket-core/crypto"
+	"github.com/pokt-network/pocket-core/store/rootmulti"
 	sdk "github.com/pokt-network/pocket-core/types"
 	"github.com/pokt-network/pocket-core/types/module"
 	apps "github.com/pokt-network/pocket-core/x/apps"
@@ -33,7 +34,6 @@ import (
 	tmclient "github.com/tendermint/tendermint/rpc/client"
 	ctypes "github.com/tendermint/tendermint/rpc/core/types"
 	tmStore "github.com/tendermint/tendermint/store"
-	"github.com/pokt-network/pocket-core/store/rootmulti"
 	tmtypes "github.com/tendermint/tendermint/types"
 	dbm "github.com/tendermint/tm-db"
 )
@@ -80,21 +80,21 @@ func roleOf(a sdk.Address) string {
 
 // EnvCfg: everything that parametrises a replica besides its blocks.
 type EnvCfg struct {
-	BaseHeight       int64  `json:"base_height"`    // the chain starts right above this height (mainnet-era code paths); 0 = from height 1
-	FeatureHeight    int64  `json:"feature_height"` // activation height of every named feature
-	BlocksPerSession int64  `json:"blocks_per_session"`
-	ClaimWindow      int64  `json:"claim_window"`
-	ClaimExpiration  int64  `json:"claim_expiration"`
-	SessionNodeCount int64  `json:"session_node_count"`
-	MaxValidators    int64  `json:"max_validators"`
-	MaxApplications  int64  `json:"max_applications"`
-	UnstakingBlocks  int64  `json:"unstaking_blocks"` // unstaking time in block intervals
-	MinProofs        int64  `json:"min_proofs"`
-	StateCache       bool   `json:"state_cache"`
-	Genesis          string `json:"genesis"` // named genesis variant
-	Warmup           int    `json:"warmup"`  // blocks executed before the explored history (the last one carries Setup)
-	Setup            []TxSpec `json:"setup,omitempty"` // transactions of the last warm-up block; all must succeed
-	Proposer         string   `json:"proposer,omitempty"` // default block proposer (N1)
+	BaseHeight       int64    `json:"base_height"`    // the chain starts right above this height (mainnet-era code paths); 0 = from height 1
+	FeatureHeight    int64    `json:"feature_height"` // activation height of every named feature
+	BlocksPerSession int64    `json:"blocks_per_session"`
+	ClaimWindow      int64    `json:"claim_window"`
+	ClaimExpiration  int64    `json:"claim_expiration"`
+	SessionNodeCount int64    `json:"session_node_count"`
+	MaxValidators    int64    `json:"max_validators"`
+	MaxApplications  int64    `json:"max_applications"`
+	UnstakingBlocks  int64    `json:"unstaking_blocks"` // unstaking time in block intervals
+	MinProofs        int64    `json:"min_proofs"`
+	StateCache       bool     `json:"state_cache"`
+	Genesis          string   `json:"genesis"`                // named genesis variant
+	Warmup           int      `json:"warmup"`                 // blocks executed before the explored history (the last one carries Setup)
+	Setup            []TxSpec `json:"setup,omitempty"`        // transactions of the last warm-up block; all must succeed
+	Proposer         string   `json:"proposer,omitempty"`     // default block proposer (N1)
 	GenesisJSON      string   `json:"genesis_json,omitempty"` // start from this (exported) application state instead of the built-in genesis
 }
 
